@@ -8,9 +8,16 @@ ASSUMPTIONS = ["witness-space search over the REAL constraint system recorded by
                "(snarkjsbackend.snarkjsp assigned in the worker) at bitlengths 2..5 (2^(n+1) <= 97): every wire the operation "
                "introduced is unknown, every earlier wire keeps its value; complete enumeration (exhaustive for each instance)",
                "the Lean theorems quantify over all primes/widths/assignments; the small field is only the search space of the oracle"]
-PARTIAL = ["C02_divmod_partial + C02_cex_divmod_quotient: //, %, divmod (and what is built on them: >> by a secret, fixed-point * and /) do not determine the quotient",
-           "C02_cex_bitwise_const: &, |, ^ with a public int return an unconstrained witness",
-           "theorems are for unguarded states; soundness under a true guard is covered by the oracle only"]
+PARTIAL = ["C02_determined (program level) is for runs inside SoundFragment (Spec/SoundProg.lean, table Instr.excl); excluded with reason: "
+           "guardRegion (guarded regions: soundness under a guard not yet composed, covered by the oracle only), ignoreErrors (set ign: outside the "
+           "property), secretLiteral (a literal holding a LinComb is not an API value), widthTooLarge (explicit width n with 2^(n+1) > p)",
+           "C02_divmod_partial + C02_cex_divmod_quotient: //, %, divmod and what is built on them (>> by a secret, fixed-point * by a float or "
+           "fixed-point, every fixed-point /, fixed-point ** n for n >= 2) do not determine the quotient: excluded as divmodQuotient / "
+           "secretShift / fxpRescale",
+           "C02_cex_bitwise_const: &, |, ^ with a public int return an unconstrained witness: excluded as bitwiseConst",
+           "C02_cex_truediv_zero_mod_p: a / b for a secret b whose integer value is a nonzero multiple of p leaves the quotient wire free: "
+           "excluded as zeroDivisorModP (a value-dependent test of the fragment replay)",
+           "gadget-level theorems are for unguarded states; soundness under a true guard is covered by the oracle only"]
 LEVELS = "S"
 P = 97
 OPS = ["mul", "truediv", "floordiv", "mod", "divmod", "lt", "le", "eq", "ne", "gt", "ge", "and", "or", "xor", "rshift",
@@ -152,6 +159,14 @@ def explore(ctx, extended=False, focus=None):
         ex.count("search:complete" if complete else "search:limit")
         ex.distinct.add((r.case.meta["op"], r.case.meta["kinds"], r.case.cfg["bl"], tuple(r.priv[i] for i in sorted(inputs)), tuple(r.pub), r.case.meta.get("history", False)))
         sig = instr_sig(r.case, r.regs, t)
+        if r.case.instrs[t].startswith("bin truediv"):
+            # finding C02-truediv-zero-mod-p: a secret divisor whose integer value is a nonzero multiple of p
+            import re as _re
+            toks = r.case.instrs[t].split()
+            db = int(toks[3][1:]) if len(toks) > 3 and toks[3][1:].isdigit() else -1
+            mm = _re.match(r"L:(-?\d+):", r.regs[db]) if 0 <= db < len(r.regs) else None
+            if mm and int(mm.group(1)) != 0 and int(mm.group(1)) % P == 0:
+                sig["divisor"] = "nonzero-multiple-of-p"
         if nsol == 0 and complete:
             ex.violations.append(Violation(dict(sig, dev="honest-witness-unsat"),
                                            f"{r.case.instrs[t]}: no assignment of the new wires satisfies the emitted constraints",
